@@ -50,6 +50,18 @@ def gen_graph_ws(root, rng, unique):
         if unique and rng.random() < 0.1 and p[0] not in deps:
             deps.insert(0, p[0])           # self-loop without a parent: a real cycle
         p[2] = deps
+    if unique and rng.random() < 0.4:
+        # a planted ring (or self-loop) whose members request an unknown name BEFORE the parameter that continues the ring
+        ring = rng.sample(names, rng.randint(1, 3))
+        for i_, nm in enumerate(ring):
+            p = next(q for q in placed if q[0] == nm)
+            nxt = ring[(i_ + 1) % len(ring)]
+            deps = [d for d in p[2] if d != "unknown_dep"]
+            if nxt not in deps:
+                deps.append(nxt)
+            deps.insert(deps.index(nxt), "unknown_dep")
+            p[2] = deps
+        ws.features.add(("ring_with_unknown_first",))
     for nm, f, deps, scope in placed:
         files[f].append(fx(nm, deps, scope))
     for f, parts in files.items():
